@@ -676,3 +676,31 @@ def stage_remove_by_name(batch, kinds, dt, name):
     ans = impl_call(run)
     batch.add({"op": "removebyname", "reg": before, "name": name}, ans, {"kinds": kinds, "name": name, "project": "regcfg"})
     return ans
+
+
+def stage_setargs(batch, kw_items, dkr, dkf, disable_unicode, preamble):
+    """the real `Cli.set_args` for the options that are stored as they are mapped (dict-key options, preamble, unicode
+    flag, generator kwargs items) against `CliArgs.setArgs`"""
+    def run():
+        from json_to_models.cli import Cli
+        cli = Cli()
+        cli.set_args([], "flat", "base", None, list(kw_items), list(dkr), list(dkf), disable_unicode, preamble)
+        base = {"post_init_converters", "convert_unicode", "max_literals"}
+        kw = [[k, v] for k, v in cli.model_generator_kwargs.items() if k not in base]
+        return {"dkr": [p.pattern for p in cli.dict_keys_regex], "dkf": list(cli.dict_keys_fields),
+                "preamble": cli.preamble, "convert_unicode": cli.model_generator_kwargs["convert_unicode"], "kwargs": kw}
+    names = [it.strip('"').split("=", 1)[0] for it in kw_items if "=" in it]
+    if any(n in ("post_init_converters", "convert_unicode", "max_literals") for n in names):
+        return None
+    ans = impl_call(run)
+    req = {"op": "setargs", "kw": list(kw_items), "dkr": list(dkr), "dkf": list(dkf), "disableUnicode": bool(disable_unicode)}
+    if preamble is not None:
+        req["preamble"] = preamble
+    batch.add(req, ans, {"kw": kw_items, "dkr": dkr, "dkf": dkf, "preamble": preamble})
+    return ans
+
+
+def stage_spaces(batch):
+    """`str.isspace` over every code point against `CliArgs.pyIsSpace` (what `str.strip()` removes)"""
+    ans = impl_call(lambda: [c for c in range(0x110000) if chr(c).isspace()])
+    batch.add({"op": "spaces", "limit": 0x110000}, ans, {"table": "str.isspace"})
